@@ -9,6 +9,7 @@ CONSTANTS
   QCap = 6
   EchoStores = TRUE
   SealOnClose = FALSE
+  LostGuard = FALSE
 VIEW View
 INVARIANT TypeOK
 CHECK_DEADLOCK FALSE
